@@ -21,6 +21,20 @@ import tempfile
 ROOT = os.path.dirname(os.path.dirname(os.path.abspath(__file__)))
 
 
+def add_worktree(wt):
+    """`git worktree add` with retries (concurrent invocations contend for the repository lock)."""
+    import time as _t
+    err = None
+    for attempt in range(8):
+        r = subprocess.run(["git", "-C", "/repo", "worktree", "add", "--detach", "-f", wt], capture_output=True, text=True)
+        if r.returncode == 0:
+            return
+        err = r.stderr
+        subprocess.run(["git", "-C", "/repo", "worktree", "prune"], capture_output=True)
+        _t.sleep(1.5 * (attempt + 1))
+    raise RuntimeError("git worktree add failed: " + str(err))
+
+
 def run_checks(props, tier, env):
     res = {}
     for prop in props:
@@ -52,7 +66,7 @@ def run_one(sid, tier, in_place):
                 subprocess.run(["git", "-C", "/repo", "checkout", "--", "."], check=True)
         else:
             wt = os.path.join(tmp, "wt")
-            subprocess.run(["git", "-C", "/repo", "worktree", "add", "--detach", "-f", wt], check=True, capture_output=True)
+            add_worktree(wt)
             diff = subprocess.run(["git", "-C", "/repo", "diff", "HEAD"], capture_output=True, text=True).stdout
             if diff.strip():
                 subprocess.run(["git", "-C", wt, "apply"], input=diff, text=True, check=True)
